@@ -34,6 +34,9 @@ CLAIMED = {
  "C06": ("7/C06", "CFG edge-cut guard entailment with linear integer atoms (interval-normalised) on the stream handler and the log read, loop rules (one command per entry), ownership of the cache buffer, guard entailment on every cache put, event-dispatch reachability, interval fact on the size cut",
          "Structural necessary conditions only: range arithmetic of the stream handler, the four-way decision of the log read and its mapping to error responses, dense/ordered/labelled command construction, cache write hygiene and invalidation wiring, size cut >= 1 entry. Equivalence of cached and uncached answers for every cache state is NOT decided.",
          "go/types+go/ssa; dragonboat ReadonlyLogReader contract; applied index monotone"),
+ "C13": ("7/C13", "CFG edge-cut guard entailment on the version gate (per loop iteration), provenance of the stored version, client result mapping, forward taint for determinism, writer-reader agreement of the JSON snapshot, lock-held-until-return rule",
+         "Structural necessary conditions only: version gate before every map write with the mismatch edge reporting the stored pair and writing nothing; stored version = entry index; client maps mismatch and proposal errors; no nondeterministic value reaches the map or results; snapshot marshals/decodes the same field and replaces the map; every map access under the (right kind of) lock until return. Glob semantics and JSON round trips are not decided.",
+         "go/types+go/ssa; Raft applies entries in index order"),
 }
 PENDING_REASON = "rules designed (DESIGN.md section 7), check not built yet"
 checks=[]; na=[]
